@@ -5,6 +5,8 @@ import (
 	"go/ast"
 	"go/token"
 	"go/types"
+	"os"
+	"runtime/debug"
 	"strings"
 )
 
@@ -140,6 +142,9 @@ func VerifyFunc(ld *Loader, pkg *Pkg, key string) (res *FuncResult) {
 				}
 			case specError:
 				msg = "contract error: " + e.msg
+				if os.Getenv("GOVC_DEBUG") != "" {
+					debug.PrintStack()
+				}
 			default:
 				panic(r)
 			}
